@@ -25,7 +25,7 @@ FINISH = dict(
         "Lean 4.33 kernel; axioms of every theorem within {propext, Classical.choice, Quot.sound}",
         "Lean compiler for acmed_model (evaluates the same definitions the theorems are about)",
         "py/gen.py extractor of struct GlobalOptions and of the [global] merge block of read_cnf "
-        "(Gen/GlobalMerge.lean; theorems later_global_wins_full, model_options_match_source)",
+        "(Gen/GlobalMerge.lean; theorems later_global_wins_full, model_options_match_source, every_source_option_accounted_for)",
         "in-crate probe ops c14_cnf (real read_cnf, dispatch_global_env_vars, Certificate::get_*), "
         "config_load (real from_file + MainEventLoop::new), c14_defaults",
         "this harness's resolution of include patterns on the directory it created (fnmatch over sorted "
@@ -1240,6 +1240,11 @@ def run(ctx):
             return ctx.finish(**FINISH)
     vlib.build_acmed()
     g = vlib.model([{"op": "c14_gen"}])[0]
+    if g.get("unmodelled_options"):
+        # options the code has and the model does not (added since): the theorems say nothing about them
+        # beyond "merged" (every_source_option_accounted_for); recorded, not an alarm
+        ctx.notes.append("global options without a model: %s" % ", ".join(g["unmodelled_options"]))
+        ctx.count("gen:unmodelled-global-options", len(g["unmodelled_options"]))
     if not g.get("merge_complete"):
         print("C14: the [global] merge block of read_cnf forgets: %s" % ", ".join(g.get("merge_missing", [])))
     scratch = os.path.join(vlib.BUILD, "scratch", "c14-%d" % os.getpid())
